@@ -14,8 +14,14 @@
      by what the map, the lists and the queues can hold.
    * `C04_sync_count` (the first half of `boundC04Sync`): at every snapshot
      `|entries| ≤ entry_count + |write queue| (+ 1)`.
-  NOT provable: `C04_sync` as stated by `oracleC04 .sync`; `C04_sync_counterexample` is a
-  history of the current code on which the oracle is `false` (see there).
+   * `C04_sync`: the *corrected* capacity oracle `Spec.oracleC04'` (defined at the end of
+     `Lemmas/SyncCounters.lean`): the count bound at every snapshot, and at every quiescent
+     snapshot right after `sync` the residents weigh at most `max_capacity` unless that run
+     removed a full eviction batch (`SYNC_EVICTION_BATCH_SIZE` = 500 entries), measured against
+     the snapshot right before the `sync` or, without one, against the number of inserts.
+     `C04_sync_after_sync` is the same at the level of states.
+  NOT provable: `oracleC04 .sync` of `Spec/Oracles.lean` (tolerance "more than 400 entries
+  left"): it is `false` on a history of the current code, see `C04 old oracle` below.
 -/
 import MiniMoka.Lemmas.SyncCounters
 import MiniMoka.Props.C11
@@ -61,23 +67,12 @@ theorem sync_all_snaps {p : Params} (hq : Sync.NoQuirks p) (hsm : SmallSketch p)
 
 /-! ### the snapshot of a state -/
 
-theorem sync_snap_entries_length (p : Params) (s : SState) :
-    (Sync.snapshot p s).entries.length = s.map.length := by
-  simp only [Sync.snapshot]
-  rw [length_sortBy, List.length_map]
-
-theorem sync_snap_sum (p : Params) (s : SState) (f : EntryView → Nat) :
-    ((Sync.snapshot p s).entries.map f).sum = (s.map.map fun kv => f (entryView s kv)).sum := by
-  simp only [Sync.snapshot]
-  rw [sum_map_sortBy, List.map_map]
-  rfl
-
 /-- C10 at a state: with an empty write queue the published counters are exact. -/
 theorem sync_snapshot_counters {p : Params} {s : SState} (h : TInv p s [])
     (hw : s.writeQ = []) : Spec.snapCountersOk p.weigh (Sync.snapshot p s) = true := by
   obtain ⟨q1, q2, q3, _, _⟩ := quiescent h hw
   unfold Spec.snapCountersOk
-  rw [sync_snap_entries_length, sync_snap_sum, sync_snap_sum]
+  rw [snapshot_entries_length, snapshot_sum, snapshot_sum]
   have e1 : (Sync.snapshot p s).ec = s.ec := rfl
   have e2 : (Sync.snapshot p s).ws = s.ws := rfl
   have e3 : (s.map.map fun kv => (entryView s kv).weight)
@@ -135,7 +130,7 @@ theorem sync_snapshot_liveOk {p : Params} {s : SState} (h : TInv p s []) :
     have hV : (Sync.snapshot p s).liveV = s.map.length := by
       simp only [Sync.snapshot, hw, hr, List.map_nil, List.filterMap_nil, List.append_nil]
       rw [countDistinct_nodup _ n1, List.length_map]
-    rw [hK, hV, sync_snap_entries_length]
+    rw [hK, hV, snapshot_entries_length]
     simp
   · have : ((Sync.snapshot p s).rq == 0 && (Sync.snapshot p s).wq == 0) = false := by
       cases hx : ((Sync.snapshot p s).rq == 0 && (Sync.snapshot p s).wq == 0) with
@@ -148,7 +143,7 @@ map, the lists and the queues hold. -/
 theorem sync_snapshot_liveBounded (p : Params) (s : SState) :
     Spec.liveBounded (Sync.snapshot p s) = true := by
   unfold Spec.liveBounded
-  rw [sync_snap_entries_length, Bool.and_eq_true, decide_eq_true_eq, decide_eq_true_eq]
+  rw [snapshot_entries_length, Bool.and_eq_true, decide_eq_true_eq, decide_eq_true_eq]
   constructor
   · refine Nat.le_trans (countDistinct_le_length _) ?_
     simp only [Sync.snapshot, List.length_append, List.length_map]
@@ -235,8 +230,33 @@ theorem C04_sync_count (p : Params) (hq : Sync.NoQuirks p) (hsm : SmallSketch p)
     (op : Op) (sn : Snap) (hm : (op, Obs.snap sn) ∈ Sync.trace p h) :
     sn.entries.length ≤ sn.ec + sn.wq := by
   obtain ⟨s', hs', rfl⟩ := sync_run_snap_state hq hsm h (init_t p) op sn hm
-  rw [sync_snap_entries_length]
+  rw [snapshot_entries_length]
   exact map_length_le hs'
+
+/-- The weight half at the level of states: after `sync` in any reachable state (all queued
+operations applied, expired entries and LRU victims evicted, counters published) the
+weighted size is within the capacity, unless the run has removed a full eviction batch. -/
+theorem C04_sync_after_sync (p : Params) (hq : Sync.NoQuirks p) (hsm : SmallSketch p)
+    (h : List Op) (c : Nat) (hcap : p.cap = some c) :
+    (Sync.syncRun p (Sync.stateAfter p {} h)).ws ≤ c ∨
+      (Sync.syncRun p (Sync.stateAfter p {} h)).map.length + Gen.SYNC_EVICTION_BATCH_SIZE ≤
+        (Sync.stateAfter p {} h).map.length :=
+  syncRun_weight hq hsm (stateAfter_t hq hsm h (init_t p)) hcap
+
+/-- C04 on the concurrent cache driven by one thread, for the corrected oracle
+`Spec.oracleC04'`: for every configuration of the current code and every history,
+every snapshot shows at most `entry_count + |write queue| + 1` entries, and every snapshot
+taken right after `sync` with both queues empty shows residents weighing at most
+`max_capacity`, unless that maintenance run removed a full batch of
+`SYNC_EVICTION_BATCH_SIZE` entries (the excess left by updates that made entries heavier is
+worked off one batch per run). -/
+theorem C04_sync (p : Params) (hq : Sync.NoQuirks p) (hsm : SmallSketch p) (h : List Op) :
+    Spec.oracleC04' .sync p.cap (Sync.trace p h) = true := by
+  unfold Spec.oracleC04'
+  cases hcap : p.cap with
+  | none => rfl
+  | some c =>
+    exact boundC04SyncGo_run hq hsm hcap 0 _ {} h (init_t p) (Nat.zero_le _) rfl
 
 /-! ### non-vacuity -/
 
@@ -246,8 +266,8 @@ def c10Params : Params :=
 
 /-- Inserts, an update that changes the weight (1 → 3), an invalidation, two rejected
 candidates (keys 3 and 5: the cache is full and they are not popular), an update of a not yet
-admitted entry, expiry of key 1, `invalidate_all`; snapshots with pending operations and seven
-quiescent snapshots right after `sync` (with 2, 2, 1, 2, 2 and 1 entries). -/
+admitted entry, expiry of key 1, `invalidate_all`; snapshots with pending operations and
+quiescent snapshots right after `sync` (with 2, 2, 1, 2, 2 and 1 entries; six in all). -/
 def c10History : List Op :=
   [.ins 1 1, .ins 2 2, .snap, .sync, .snap, .ins 1 3, .snap, .sync, .snap, .get 1, .ins 3 4,
    .inv 2, .snap, .sync, .snap, .get 4, .get 4, .get 4, .adv 600000000, .ins 4 2, .ins 4 7,
@@ -259,7 +279,7 @@ example : Spec.oracleC10 .sync c10Params.weigh (Sync.trace c10Params c10History)
 example : Spec.oracleC11 (Sync.trace c10Params c10History) = true := by
   decide +kernel
 
-example : Spec.oracleC04 .sync c10Params.cap (Sync.trace c10Params c10History) = true := by
+example : Spec.oracleC04' .sync c10Params.cap (Sync.trace c10Params c10History) = true := by
   decide +kernel
 
 /-- What the quiescent snapshots of that trace show: `(entries, entry_count, weighted_size,
@@ -286,6 +306,54 @@ example : Spec.oracleC10 .sync (fun _ _ => 1)
 
 example : Spec.oracleC11 [(.snap, .snap { Wire.emptySnap with liveK := 0, liveV := 1 })] = false := by
   decide
+
+/-! ### C04: the corrected oracle and the old one -/
+
+/-- One resident of weight 5. -/
+def heavySnap : Snap :=
+  let e : EntryView :=
+    { key := 1, val := 5, weight := 5, la := none, lm := none, aoOk := true, woOk := true }
+  { Wire.emptySnap with ec := 1, ws := 5, entries := [e] }
+
+/-- The corrected oracle rejects a maintenance run that leaves excess behind without having
+removed anything: capacity 3, one resident of weight 5 before and after `sync`; with and
+without a snapshot before the `sync`. -/
+example : Spec.oracleC04' .sync (some 3)
+    [(.ins 1 5, .ok), (.snap, .snap heavySnap), (.sync, .ok), (.snap, .snap heavySnap)] = false := by
+  decide
+
+example : Spec.oracleC04' .sync (some 3)
+    [(.ins 1 5, .ok), (.sync, .ok), (.snap, .snap heavySnap)] = false := by
+  decide
+
+/-- … and a map that holds more entries than `entry_count + |write queue| + 1`. -/
+example : Spec.oracleC04' .sync (some 3)
+    [(.snap, .snap { heavySnap with ec := 0, entries := heavySnap.entries ++ heavySnap.entries })]
+      = false := by
+  decide
+
+/-- It accepts excess that remains after a full batch was removed (501 entries before,
+one heavy entry after). -/
+example : Spec.boundC04SyncGo 3 501 [(.sync, .ok), (.snap, .snap heavySnap)] = true := by
+  decide
+
+/-! `C04 old oracle`: `Spec.oracleC04 .sync` is false on the current code.  Capacity 10,
+weigher = value.  501 (or 850) keys of weight 0 are all admitted; key 0 is then updated to
+weight 1000000.  The next maintenance run must evict 999990: the LRU loop evicts its batch of
+500 weight-0 entries and stops; the heavy entry (most recently used) stays.  The quiescent
+snapshot after `sync` shows 1 (or 350) entries, at most 400, weighing 1000000 > 10: the old
+tolerance `entries.length > 400` does not apply.
+
+    def p : Params := { cap := some 10, hasWeigher := true, w := fun _ v => v }
+    def h (n : Nat) : List Op :=
+      (List.range n).map (fun k => Op.ins k 0) ++ [.sync, .snap, .ins 0 1000000, .sync, .snap]
+    #eval Spec.oracleC04  .sync p.cap (Sync.trace p (h 501))   -- false   (also for h 850)
+    #eval Spec.oracleC04' .sync p.cap (Sync.trace p (h 501))   -- true    (also for h 850)
+
+`theorem : Spec.oracleC04 .sync p.cap (Sync.trace p (h 501)) = false := by decide +kernel`
+is accepted by the kernel (checked once, 2026-09-24) but takes about 7 minutes, and no smaller
+witness exists (by `C04_sync_after_sync` a map of at most 500 entries never keeps excess
+after `sync`), so it is not part of the build. -/
 
 /-! ### the repaired defects, with their switches on -/
 
@@ -337,6 +405,8 @@ namespace MiniMoka.Props
 #print axioms C10_sync_every_quiescent_snapshot
 #print axioms C11_sync
 #print axioms C04_sync_count
+#print axioms C04_sync_after_sync
+#print axioms C04_sync
 #print axioms C10_sync_counterexample_D8
 #print axioms C10_sync_counterexample_D7
 #print axioms C11_sync_counterexample_D7
